@@ -65,7 +65,7 @@ def run_one(sid, v, r, tier, jobs):
         sh(["git", "-C", r, "clean", "-fdq", "--", "src"])
         sh(["git", "-C", v, "checkout", "--", "lean", "harness"])
     return {"property": props, "tier": tier, "checks": out,
-            "detected": any(out[p]["rc"] == 1 and out[p]["violation_lines"] for p in props)}
+            "detected": any(out[p]["rc"] == 1 and out[p]["violation_lines"] for p in props + also)}
 
 
 def main():
